@@ -237,6 +237,18 @@ fn exec_t<T: Sc, F: Factory<T>>(sc: &Scenario) -> RunReport {
                                 }
                             }
                         }
+                        // (T) best_fit belongs to the same state: Phi(alpha_hat)·C_hat, unweighted,
+                        // in the shape of the observations
+                        if let (Some(bf), Some(cm)) = (&f.best_fit, &f.coeffs) {
+                            if bf.shape() != (n, s) {
+                                rep.violate(sc, "INCOHERENT_FINAL_STATE", "Fit/best_fit", format!("best_fit has shape {:?}, expected ({n},{s})", bf.shape()));
+                            } else {
+                                match super::c02::best_fit_identity(w, &params, bf, cm) {
+                                    Ok(_) => {}
+                                    Err(e) => rep.violate(sc, "INCOHERENT_FINAL_STATE", "Fit/best_fit", e),
+                                }
+                            }
+                        }
                         // (T) coefficients optimal for alpha_hat, judged on the objective
                         match optimality(w, &params, &coeff, nr2.sqrt()) {
                             Opt::Ok => rep.probe("optimality_checked"),
